@@ -125,15 +125,20 @@ def scenario(ch, cfg):
             p = ch.pick(POINTS[kd], "ppoint")
             pts.append(p)
             setup.append(f"{n}::{p}")
+        # the parameter list itself may name a symbol twice (loss:>[w b w]): legal input, same purity obligation
+        listed = list(names)
+        if ch.draw(4, "dupsym") == 0:
+            listed.append(names[ch.draw(len(names), "dupwhich")])
+            bump("probe_duplicate_symbol_in_parameter_list")
         if form == "multi-grad":
             body = "+".join(f"(+/t({n})*{i + 2})" for i, n in enumerate(names))
             setup.append(f"loss::{{{body}}}")
-            src = f"loss:>[{' '.join(names)}]"
+            src = f"loss:>[{' '.join(listed)}]"
             fcall = "loss()"
         else:
             body = ",".join(f"(t({n})*{i + 2})" for i, n in enumerate(names))
             setup.append(f"vg::{{{body}}}")
-            src = f"[{' '.join(names)}]∂vg"
+            src = f"[{' '.join(listed)}]∂vg"
             fcall = "vg()"
             bump("probe_jacobian")
         point_desc = dict(zip(names, pts))
